@@ -1,5 +1,5 @@
 //! unit: u02
-//! properties: C02 C08 C04
+//! properties: C02 C08 C04 C14
 //! note: forward admission arithmetic (fee and CLTV) and the timing lemma over the extracted constants
 //! trusted: R15 (statement slicing): should_broadcast_holder_commitment_txn scans hash maps through a function-local macro_rules!; the unit extracts the go-on-chain test of scan_commitment! verbatim (both inequalities) as a function of (htlc, direction, height, preimage known); the scan itself is dropped and not claimed
 //! plemma: C08 lemma_forward_race / lemma_on_chain_heights_close_the_race: with the extracted constants and the extracted on-chain test, a silent or last-moment downstream peer never costs the upstream HTLC
@@ -8,6 +8,7 @@
 //! trusted: env: PaymentConstraints {2 fields} skeleton; BlindedHopFeatures opaque with external_body empty()/requires_unknown_bits_from() (unconstrained)
 //! trusted: env: struct UpdateAddHTLC{amount_msat,cltv_expiry}, ChannelConfig{3 fields}, PaymentRelay{3 fields} are field skeletons of the real structs; enum LocalHTLCFailureReason restricted to the 6 variants used; FundedChannel/ChannelContext self skeleton (R5) whose config()/prev_config() accessors are external_body returning the two stored configs
 //! trusted: R15 (deep slice): can_forward_htlc_to_outgoing_channel: the unit extracts its last two statements (minimum-amount test and the call of htlc_satisfies_config, which is checked against that function's proved contract) verbatim; the privacy / liveness pre-checks before them (all early Err returns) are dropped and not claimed; NextPacketDetails skeleton
+//! trusted: R15 (deep slice): process_forward_htlcs: the first three argument expressions of its queue_add_htlc call, verbatim, as a function of the three values destructured from the pending forward
 //! trusted: R15 (deep slice): claim_funds_internal: the expression computing total_fee_earned_msat inside the PaymentForwarded closure, verbatim
 //! trusted: R15 (deep slice): do_chain_event sweeps pending_intercepted_htlcs with a retain closure under a mutex; the unit extracts the closure's keep/fail-back test verbatim as a function of (htlc, height); the pushed failure and the log are dropped; PendingAddHTLCInfo/PendingHTLCInfo skeletons {outgoing_cltv_value}
 //! trusted: R15 (deep slice): do_best_block_updated times out AddHTLC entries of the holding cell in a retain closure; the unit extracts the limit and the keep/drop test verbatim as a function of (cltv_expiry, height), and the second component of each of its three Ok result tuples (what is handed back to be failed upstream) as three one-expression functions
@@ -266,6 +267,18 @@ pub struct HTLCOutputInCommitment { pub cltv_expiry: u32, pub offered: bool }
 //@with
     htlc.cltv_expiry < height + CLTV_CLAIM_BUFFER
 //@end
+// ---- what is actually offered downstream (deep R15 slice of ChannelManager::process_forward_htlcs: the first three arguments of the queue_add_htlc call) ----
+#[derive(Clone, Copy)] pub struct FwdPaymentHash(pub [u8; 32]);
+//@extract lightning/src/ln/channelmanager.rs :: impl ChannelManager :: fn process_forward_htlcs
+//@slice R15
+    optimal_channel.queue_add_htlc( $a1, $a2, $a3, htlc_source.clone(), $rest:any )
+//@with
+    fn values_offered_downstream(outgoing_amt_msat: &u64, payment_hash: &FwdPaymentHash, outgoing_cltv_value: &u32) -> (u64, FwdPaymentHash, u32) { ($a1, $a2, $a3) }
+//@ret r
+//@ensures P C02,C14 the-htlc-offered-downstream-carries-exactly-the-amount-payment-hash-and-expiry-the-onion-prescribed-and-that-forward-admission-checked
+    r.0 == *outgoing_amt_msat && r.1 == *payment_hash && r.2 == *outgoing_cltv_value,
+//@end
+
 // ---- what a completed forward earned (deep R15 slice of ChannelManager::claim_funds_internal) ----
 //@extract lightning/src/ln/channelmanager.rs :: impl ChannelManager :: fn claim_funds_internal
 //@slice R15
